@@ -25,7 +25,7 @@ LEVEL = "exploration"
 BATCH = 1
 TIMEOUT = 900
 REQUIRED_OBS = ["toml_keys_compared", "cli_vs_api_trees_compared", "files_compared", "solver_dense", "solver_sparse", "solver_rosenbrock4", "solver_cusparse",
-                "with_replacement", "with_binding_or_yield", "with_modifiers", "with_allowed_species", "with_cooling", "with_bulk_prefix", "examples_rendered", "with_explicitly_empty_list"]
+                "with_replacement", "with_binding_or_yield", "with_modifiers", "with_allowed_species", "with_cooling", "with_bulk_prefix", "examples_rendered", "with_explicitly_empty_list", "with_repeated_format"]
 RULE = ("option sets for `naunet init`: element / pseudo-element lists (default, upper-case with replacement table), surface and bulk prefixes, "
         "allowed and extra species, binding-energy and yield tables, network files of every format, grain model, cooling lists, shielding "
         "tables, rate and ODE modifiers, every solver/method/device; list values with irregular spacing, trailing separators and empty "
@@ -62,6 +62,15 @@ def make_case(rng, i):
             r.update(tmin=10.0, tmax=9999.0, formula=3, code="NN", pseudo=None)
         lines[f"net.{fmt}"] = [encode.LINE[fmt](r) for r in rs]
         d.update(files=[f"net.{fmt}"], formats=[fmt], elements=list(chem.DEFAULT_ELEMENTS), pseudo_elements=list(DEF_PS))
+        if rng.random() < 0.35:
+            # the network in two (or three) files of the SAME format: the formats list runs parallel to the files list, repeats included
+            k = rng.randint(1, len(rs) - 1)
+            parts = [rs[:k], rs[k:]] if rng.random() < 0.7 or len(rs) < 4 else [rs[:1], rs[1:k + 1] or rs[1:2], rs[k + 1:] or rs[-1:]]
+            lines.clear()
+            for j, part in enumerate(parts):
+                lines[f"gas{j + 1}.{fmt}"] = [encode.LINE[fmt](r) for r in part]
+            d.update(files=[f"gas{j + 1}.{fmt}" for j in range(len(parts))], formats=[fmt] * len(parts))
+            d["repeated_format"] = True
         if rng.random() < 0.3:
             # an explicitly EMPTY list for an option whose default is not empty (the bundled minimal example does this)
             d["pseudo_elements"] = []
@@ -156,6 +165,8 @@ def gen_cases(tier):
     cases = [make_case(random.Random(rng.getrandbits(64)), i) for i in range(n)]
     # probes for values that contain the substring "null" (the command treats the bare word null as "empty")
     c = make_case(random.Random(rng.getrandbits(64)), 0)
+    while c["desc"].get("repeated_format"):
+        c = make_case(random.Random(rng.getrandbits(64)), 0)
     c["lines"] = {"nullmodel.kida": c["lines"]["net.kida"]}
     c["desc"]["files"] = ["nullmodel.kida"]
     c["options"]["network-files"] = "nullmodel.kida"
@@ -280,6 +291,8 @@ def run_case(case, ctx):
         groups += 1
     if d.get("explicit_empty"):
         obs["with_explicitly_empty_list"] += 1
+    if d.get("repeated_format"):
+        obs["with_repeated_format"] += 1
     if d.get("shielding") or d.get("grain_model"):
         groups += 1
     cli = child({"mode": "cli", "desc": d, "options": case["options"], "multi": case["multi"], "out": str(cli_dir)}, work, "cli")
